@@ -20,10 +20,24 @@ CONSTANTS
     Strat,               \* stratified coordinate values for the Paeth cube
     StratRow,            \* stratified values for the None/Sub/Up/Average single-row cases
     MaxChain,            \* chains of length 2..MaxChain over the six stage templates
+    PaethPlanes,         \* the whole (above, upper-left) plane is tabulated for left in 0..PaethPlanes-1 (0 = off)
     Emit
 
 VARIABLES pc, case
 vars == <<pc, case>>
+
+\* published vectors pin the transcription (checked by TLC before the search starts)
+ASSUME Vectors ==
+    /\ A85Encode(<<77, 97, 110, 32>>, TRUE) = <<57, 106, 113, 111, 94, 126, 62>>                \* "Man " -> 9jqo^~>
+    /\ A85Encode(<<255, 255, 255, 255>>, TRUE) = <<115, 56, 87, 45, 33, 126, 62>>              \* s8W-!~>
+    /\ A85Decode(<<122, 126, 62>>) = Good(<<0, 0, 0, 0>>)
+    /\ ~A85Decode(<<117, 117, 117, 117, 117, 126, 62>>).ok                                      \* uuuuu > 2^32 - 1
+    /\ Adler32(<<87, 105, 107, 105, 112, 101, 100, 105, 97>>) = <<17, 230, 3, 152>>              \* "Wikipedia" -> 11E60398
+    /\ ZStored(<<>>, 1) = <<120, 1, 1, 0, 0, 255, 255, 0, 0, 0, 1>>
+    /\ LzwEncode(<<45, 45, 45, 45, 45, 65, 45, 45, 45, 66>>, 1, 4094) = <<128, 11, 96, 80, 34, 12, 12, 133, 1>>  \* ISO 32000-1 7.4.4.2
+    /\ LzwDecode(<<128, 11, 96, 80, 34, 12, 12, 133, 1>>, 1) = Good(<<45, 45, 45, 45, 45, 65, 45, 45, 45, 66>>)
+    /\ PngDecodeRow(3, 1, <<10, 20>>, <<5, 7>>) = <<10, 22>>
+    /\ PaethPredictor(0, 3, 1) = 3 /\ PaethPredictor(3, 0, 1) = 3 /\ PaethPredictor(10, 20, 30) = 10
 
 SeqsUpTo(S, n) == UNION {[1..k -> S] : k \in 0..n}
 
@@ -33,7 +47,7 @@ Parms(pred, colors, bpc, columns, early) ==
 
 ChainCase(fam, plain, chain, chs, form) ==
     [k |-> "chain", fam |-> fam, plain |-> plain, chain |-> chain, form |-> form, ws |-> -1,
-     fts |-> chs[1].fts, enc |-> Encode(plain, chain, chs)]
+     fts |-> chs[1].fts, sfts |-> [i \in 1..Len(chs) |-> chs[i].fts], enc |-> Encode(plain, chain, chs)]
 
 Init == pc = "pick" /\ case = [k |-> "none"]
 
@@ -54,7 +68,7 @@ PickA85Ws ==
           LET e == A85Encode(plain, TRUE) IN
           \E pos \in 0..(Len(e) - 1) :
              case' = [k |-> "chain", fam |-> "a85ws", plain |-> plain, chain |-> <<Stage(A85, DefaultParms)>>,
-                      form |-> "none", ws |-> w, fts |-> <<>>,
+                      form |-> "none", ws |-> w, fts |-> <<>>, sfts |-> <<<<>>>>,
                       enc |-> IF pos = 0
                               THEN Concat([i \in 1..(Len(e) - 2) |-> <<e[i], w>>]) \o EOD85
                               ELSE InsertAt(e, pos, w)]
@@ -118,9 +132,16 @@ PickPngBytes ==
 
 \* Paeth on the stratified cube, through the public decode_row: prev = <<c, b>>, cur = <<a - c, 0>>
 \* reconstructs to <<a, Paeth(a, b, c)>>
+\* plus the triples on which two of the three distances tie (2a + b = 3c: above/upper-left tie;
+\* a + 2b = 3c: left/upper-left tie; a left/above tie forces upper-left to win or all equal)
+PaethTriples ==
+    (Strat \X Strat \X Strat)
+    \cup {<<a, 3 * c - 2 * a, c>> : <<a, c>> \in {ac \in Strat \X Strat : 3 * ac[2] - 2 * ac[1] \in 0..255}}
+    \cup {<<a, (3 * c - a) \div 2, c>> : <<a, c>> \in {ac \in Strat \X Strat : 3 * ac[2] >= ac[1] /\ (3 * ac[2] - ac[1]) % 2 = 0
+                                                                              /\ (3 * ac[2] - ac[1]) \div 2 \in 0..255}}
 PickPaeth ==
     /\ pc = "pick"
-    /\ \E a \in Strat, b \in Strat, c \in Strat :
+    /\ \E t \in PaethTriples : LET a == t[1] b == t[2] c == t[3] IN
           case' = [k |-> "row", ft |-> 4, bpp |-> 1, prev |-> <<c, b>>, cur |-> <<(a + 256 - c) % 256, 0>>,
                    abc |-> <<a, b, c>>]
     /\ pc' = "case"
@@ -136,8 +157,12 @@ PickRow ==
 \* innermost (last decoded) outwards because a predictor's Columns depends on the data it sees
 Templates == {"a85", "fl", "flp", "lz0", "lz1", "lzp"}
 ChainPlains == {<<>>, <<7, 0, 0, 0, 0, 250, 7>>}
-ConcreteStage(t, x, ft) ==
-    LET n == Len(x) IN
+\* Average rows only in the last stage: a stage that is known to reconstruct Average rows wrongly
+\* (png.avg) would hand garbage to the stages after it, whose treatment of invalid data no
+\* specification predicts - the finding could then not be recognised by its exact effect
+NoAvg(ft, last) == IF ft = 3 /\ ~last THEN 4 ELSE ft
+ConcreteStage(t, x, ft0, last) ==
+    LET n == Len(x) ft == NoAvg(ft0, last) IN
     CASE t = "a85" -> [st |-> Stage(A85, DefaultParms), ch |-> Ch0]
       [] t = "fl"  -> [st |-> Stage(Flate, DefaultParms), ch |-> [Ch0 EXCEPT !.bs = 5]]
       [] t = "flp" -> [st |-> Stage(Flate, Parms(10 + ft, 1, 8, IF n = 0 THEN 1 ELSE n, 1)),      \* one row
@@ -146,13 +171,14 @@ ConcreteStage(t, x, ft) ==
       [] t = "lz1" -> [st |-> Stage(Lzw, DefaultParms), ch |-> [Ch0 EXCEPT !.reset = 261]]
       [] t = "lzp" -> LET cols == IF n % 2 = 0 THEN 2 ELSE 1 IN                                      \* rows of 1 or 2 bytes
                       [st |-> Stage(Lzw, Parms(15, 1, 8, cols, 1)),
-                       ch |-> [Ch0 EXCEPT !.fts = [r \in 1..(n \div cols) |-> (r + ft) % 5]]]
+                       ch |-> [Ch0 EXCEPT !.fts = [r \in 1..(n \div cols) |-> NoAvg((r + ft0) % 5, last)]]]
 BuildChain(plain, ts) ==
     LET n == Len(ts) IN
     FoldLeft(LAMBDA acc, j : LET i  == n + 1 - j
-                                 cs == ConcreteStage(ts[i], acc.x, (i + Len(plain)) % 5)
-                             IN [x |-> EncodeStage(acc.x, cs.st, cs.ch), chain |-> <<cs.st>> \o acc.chain],
-             [x |-> plain, chain |-> <<>>], [j \in 1..n |-> j])
+                                 cs == ConcreteStage(ts[i], acc.x, (i + Len(plain)) % 5, i = n)
+                             IN [x |-> EncodeStage(acc.x, cs.st, cs.ch), chain |-> <<cs.st>> \o acc.chain,
+                                 sfts |-> <<cs.ch.fts>> \o acc.sfts],
+             [x |-> plain, chain |-> <<>>, sfts |-> <<>>], [j \in 1..n |-> j])
 PickChain ==
     /\ pc = "pick"
     /\ \E n \in 2..MaxChain, plain \in ChainPlains :
@@ -160,10 +186,22 @@ PickChain ==
              LET b == BuildChain(plain, ts) IN
              \E form \in IF \E i \in 1..n : b.chain[i].present THEN {"array"} ELSE {"none", "array"} :
                 case' = [k |-> "chain", fam |-> "chain", plain |-> plain, chain |-> b.chain, form |-> form, ws |-> -1,
-                         fts |-> <<>>, enc |-> b.x]
+                         fts |-> <<>>, sfts |-> b.sfts, enc |-> b.x]
     /\ pc' = "case"
 
-Next == PickA85 \/ PickA85Ws \/ PickZ \/ PickLzw \/ PickLzwLong \/ PickPng \/ PickPngBytes \/ PickPaeth \/ PickRow \/ PickChain
+\* the full Paeth cube, one 256-entry row per (left, above); two levels so that the rows of
+\* different `left` values are computed by different TLC workers
+PickPaethLeft ==
+    /\ pc = "pick"
+    /\ \E a \in 0..(PaethPlanes - 1) : case' = [k |-> "pleft", a |-> a]
+    /\ pc' = "pleft"
+PickPaethPlane ==
+    /\ pc = "pleft"
+    /\ \E b \in 0..255 : case' = [k |-> "prow", a |-> case.a, b |-> b,
+                                   row |-> [c \in 1..256 |-> PaethPredictor(case.a, b, c - 1)]]
+    /\ pc' = "case"
+
+Next == PickPaethLeft \/ PickPaethPlane \/ PickA85 \/ PickA85Ws \/ PickZ \/ PickLzw \/ PickLzwLong \/ PickPng \/ PickPngBytes \/ PickPaeth \/ PickRow \/ PickChain
 
 Spec == Init /\ [][Next]_vars
 
@@ -188,19 +226,22 @@ ImplRepaired(c) == ImplDecodeO(c.enc, c.chain, c.form, NoOracle, FALSE, FALSE, F
 ImplAsIs(c)     == ImplDecodeO(c.enc, c.chain, c.form, NoOracle, TRUE, TRUE, TRUE)
 Refines == IsChain => ImplRepaired(case) = Good(case.plain)
 
-\* classes of input on which the code as it is deviates (the narrow signatures of the known findings)
-Class(c) ==
-    IF c.ws = 0 THEN "a85.nul"
-    ELSE IF c.form = "array" /\ \E i \in 1..Len(c.chain) :
+\* classes of input on which the code as it is deviates (the narrow signatures of the known findings);
+\* a case may belong to several
+Classes(c) ==
+    (IF c.ws = 0 THEN {"a85.nul"} ELSE {})
+    \cup (IF c.form = "array" /\ \E i \in 1..Len(c.chain) :
                 c.chain[i].present /\ (UsesPng(c.chain[i]) \/ (c.chain[i].f = Lzw /\ c.chain[i].early = 0))
-         THEN "decodeparms.array"
-    ELSE IF c.form = "dict" /\ UsesPng(c.chain[1]) /\ RowLen(c.chain[1]) > Bpp(c.chain[1])
-            /\ \E r \in 1..Len(c.fts) : c.fts[r] = 3
-         THEN "png.avg"
-    ELSE "none"
+          THEN {"decodeparms.array"} ELSE {})
+    \cup (IF \E i \in 1..Len(c.chain) :
+                /\ c.chain[i].present /\ UsesPng(c.chain[i]) /\ RowLen(c.chain[i]) > Bpp(c.chain[i])
+                /\ \E r \in 1..Len(c.sfts[i]) : c.sfts[i][r] = 3
+          THEN {"png.avg"} ELSE {})
 
 \* (impl-shaped, as the code is) every deviation of the design falls in a listed class
-DevExplained == IsChain => (ImplAsIs(case) # Good(case.plain) => Class(case) # "none")
+DevExplained == IsChain => (ImplAsIs(case) # Good(case.plain) => Classes(case) # {})
+\* the Average deviation alone (parameters honoured in both forms)
+ImplAvgOnly(c) == ImplDecodeO(c.enc, c.chain, c.form, NoOracle, TRUE, FALSE, FALSE)
 
 \* Paeth: the PNG pseudo-code against its defining property - the value among a, b, c closest to
 \* a + b - c, ties broken in the order a, b, c
@@ -221,10 +262,12 @@ RowOK == IsRow => /\ PngDecodeRow(case.ft, case.bpp, case.prev, PngEncodeRow(cas
 
 EmitInv ==
     (Emit /\ pc = "case") =>
+        IF case.k = "prow" THEN PrintT(<<"PAETH", ToJson([a |-> case.a, b |-> case.b, row |-> case.row])>>) ELSE
         PrintT(<<"REPLAY",
                  IF case.k = "chain"
                  THEN ToJson([k |-> "chain", fam |-> case.fam, plain |-> case.plain, enc |-> case.enc, chain |-> case.chain,
-                              form |-> case.form, impl |-> ImplAsIs(case), cls |-> Class(case)])
+                              form |-> case.form, fts |-> case.fts, impl |-> ImplAsIs(case), implAvg |-> ImplAvgOnly(case),
+                              cls |-> SetToSeq(Classes(case))])
                  ELSE ToJson([k |-> "row", ft |-> case.ft, bpp |-> case.bpp, prev |-> case.prev, cur |-> case.cur,
                               want |-> RowWant(case), impl |-> RowImpl(case)])>>)
 =============================================================================
